@@ -309,9 +309,10 @@ fn judge_jwk(entry: &str, j: &Jwk, t: usize, given_private: Option<bool>, v: &mu
   if kept.is_empty() && !leaks_value && !matches!(guard(|| p.is_public()), Ok(true)) {
     v.v("Jwk::to_public|result-not-public", entry.to_string());
   }
-  match guard(|| p.thumbprint_sha256_b64()) {
-    Ok(a) if a == want_tp => {}
-    other => v.v("Jwk::to_public|thumbprint-changed", format!("{entry}: {other:?} vs {want_tp}")),
+  // the thumbprint does not depend on the presence of the private part
+  match (guard(|| p.thumbprint_sha256_b64()), guard(|| j.thumbprint_sha256_b64())) {
+    (Ok(a), Ok(b)) if a == b => {}
+    (a, b) => v.v("Jwk::to_public|thumbprint-changed", format!("{entry}: projection {a:?}, key {b:?}")),
   }
   // idempotence
   match guard(|| p.to_public()) {
